@@ -38,6 +38,8 @@ def run(prog, rep):
         rep.part(siblings, prog, rep, fam)
     rep.part(support, prog, rep)
     rep.part(pair, prog, rep)
+    rep.part(stable, prog, rep)
+    rep.expect_min("C05.stable", 1)
     rep.expect_min("C05.paramflow", 17)
     rep.expect_min("C05.slots", 20)
     rep.expect_min("C05.siblings", 70)
@@ -346,6 +348,44 @@ def support(prog, rep):
     rep.check(zeroed >= 2, "C05.support", "ExponentiatedWeibullDistribution.pdf:zero", site,
               "NaN results are mapped to 0 for array and scalar input",
               f"outside the support the density must be 0: expected the NaN->0 mapping for both the array and the scalar case, found {zeroed}")
+
+
+# ------------------------------------------------------------------- stable
+def stable(prog, rep):
+    """The parameter conversions of the families are closed formulas evaluated in floating point.  ln(1 + r) / ln(1 - r) with r
+    computed from the parameters loses r once it is below 1.1e-16 (and half its digits at 1e-8): LogNormalNormFitDistribution(1e6, 0.01)
+    got sigma = sqrt(ln(1 + 1e-16)) = 0 and every cdf / icdf / pdf nan.  np.log1p has no such barrier.  (A numerical lint over the
+    family classes of distributions.py; the EW least-squares estimator has its own row in C13.formula.)"""
+    n_log = 0
+    for fam in families(prog, include_generic=True):
+        for name, fn in sorted(fam.ci.methods.items()):
+            if fam.name == "ExponentiatedWeibullDistribution" and name in ("_estimate_alpha_beta", "_wlsq_error"):
+                continue
+            b = builder(prog, fn, fam.ci, False)
+            bad = []
+            seen = False
+            for st in cfg_of(fn).all_stmts():
+                for n in ast.walk(st) if isinstance(st, (ast.Assign, ast.Return, ast.Expr, ast.AugAssign)) else []:
+                    if not isinstance(n, ast.Call):
+                        continue
+                    t = b.term(n, st)
+                    if t[0] != "call" or len(t[2]) != 1 or t[3]:
+                        continue
+                    if t[1] == G("numpy.log1p"):
+                        seen = True
+                    if t[1] in (G("numpy.log"), G("math.log")) and t[2][0][0] == "bin" and t[2][0][1] in ("+", "-"):
+                        a_, b_ = t[2][0][2], t[2][0][3]
+                        one, other = (a_, b_) if a_ == ("const", 1) else ((b_, a_) if b_ == ("const", 1) and t[2][0][1] == "+" else (None, None))
+                        if one is not None and other[0] != "const":
+                            seen = True
+                            bad.append(st)
+            if seen:
+                n_log += 1
+                rep.check(not bad, "C05.stable", f"{fn.qualname}:log1p", fn.where(bad[0]) if bad else fn.where(), "ln(1 + r) of a computed r is np.log1p(r)",
+                          "np.log(1 + r) with r computed from the parameters: once r < 1.1e-16 the sum rounds to exactly 1 and the logarithm is 0 "
+                          "(LogNormalNormFitDistribution(1e6, 0.01): sigma = 0, cdf / icdf / pdf nan; (1e4, 1e-2): sigma 4.4e-5 relative off); use np.log1p(r)")
+    if n_log == 0:
+        rep.fail("C05.stable", "distributions:log1p", "virocon/distributions.py", "no ln(1 + r) / log1p(r) conversion found in the family classes (anchor vanished)")
 
 
 # --------------------------------------------------------------------- pair
